@@ -18,8 +18,13 @@
    for which lexer::update reports an empty TokenChange (white space typed or removed in a gap between
    tokens) - of a text without parse errors and without a comment directly before a comma
    (C01_holds_for_blank_edits, for whole histories of such edits; C01_holds_for_empty_token_change on
-   token vectors, for any old tree that is the scratch tree up to build/semantic messages).  Each
-   of the three hypotheses is necessary: C01_blank_needs_*. *)
+   token vectors, for any old tree that is the scratch tree up to build/semantic messages;
+   C01_holds_for_blank_edits_document for AnalyzedSource::update on whole documents, which starts from
+   the ANALYSED tree - table::build/analyze only append messages, C01_analysis_appends_messages_only).
+   Each of the three hypotheses is necessary: C01_blank_needs_*.  A purely textual sufficient condition
+   for a blank edit (`gap_changeb`: white space is replaced by white space, and every token of the old
+   text either ends, look-ahead byte included, before the change or starts behind the deleted range):
+   C01_gap_edit_is_blank, C01_holds_for_white_space_edits(_document). *)
 From Spl Require Import Model.Update Proofs.UpdateProofs.
 
 Definition C01_full_statement : Prop :=
@@ -237,6 +242,42 @@ Theorem C01_blank_step : forall doc c,
 Proof. exact blank_step. Qed.
 Print Assumptions C01_blank_step.
 
+(* table::build and table::analyze only append build/semantic messages: the analysed tree of a freshly
+   opened document is its parse tree up to remove_messages *)
+From Spl Require Import Proofs.IncPositiveDoc.
+Theorem C01_analysis_appends_messages_only : forall t d0,
+  new_doc t = Done d0 ->
+  exists p, pnew t = Done {| p_text := t; p_toks := d_toks d0; p_tree := p |} /\ d_text d0 = t /\ strip_program (d_ast d0) = p.
+Proof. exact new_doc_strip. Qed.
+Print Assumptions C01_analysis_appends_messages_only.
+
+(* C01 on whole documents (AnalyzedSource::new / ::update with table and every diagnostic), for any
+   history of notifications made of blank edits of a clean text *)
+Theorem C01_holds_for_blank_edits_document : forall t h d0,
+  clean_textb t = true -> blank_histb t (concat h) = true -> new_doc t = Done d0 ->
+  exists d', update_hist d0 h = Done d' /\ new_doc (final_text t (concat h)) = Done d'.
+Proof. exact blank_notifications_fresh. Qed.
+Print Assumptions C01_holds_for_blank_edits_document.
+
+(* white space for white space, clear of every token: a textual class of blank edits *)
+From Spl Require Import Proofs.IncPositiveGap.
+Theorem C01_gap_edit_is_blank : forall t c, gap_changeb t c = true -> blank_changeb t c = true.
+Proof. exact gap_changeb_blank. Qed.
+Print Assumptions C01_gap_edit_is_blank.
+
+Theorem C01_holds_for_white_space_edits : forall t h,
+  clean_textb t = true -> gap_histb t h = true ->
+  exists doc0 doc',
+    pnew t = Done doc0 /\ valid_hist t h /\ phist doc0 h = Done doc' /\ pnew (final_text t h) = Done doc'.
+Proof. exact gap_edits_fresh. Qed.
+Print Assumptions C01_holds_for_white_space_edits.
+
+Theorem C01_holds_for_white_space_edits_document : forall t h d0,
+  clean_textb t = true -> gap_histb t (concat h) = true -> new_doc t = Done d0 ->
+  exists d', update_hist d0 h = Done d' /\ new_doc (final_text t (concat h)) = Done d'.
+Proof. exact gap_notifications_fresh. Qed.
+Print Assumptions C01_holds_for_white_space_edits_document.
+
 Definition edit (t : string) (at_ del : nat) (ins : string) : text * tchange :=
   let txt := str t in
   (txt, {| c_a := firstn at_ txt; c_d := firstn del (skipn at_ txt); c_b := skipn (at_ + del) txt; c_ins := str ins |}).
@@ -258,8 +299,26 @@ Example C01_blank_edits_example :
   let t := str "proc m(){if(c) g(x,2);}" in
   let c1 := snd (edit "proc m(){if(c) g(x,2);}" 14 0 "  ") in
   let c2 := snd (edit "proc m(){if(c)   g(x,2);}" 25 0 (String (Ascii.ascii_of_nat 10) EmptyString)) in
-  clean_textb t = true /\ blank_histb t [c1; c2] = true /\ diverges (t, c1) = false.
+  clean_textb t = true /\ blank_histb t [c1; c2] = true /\ gap_histb t [c1; c2] = true /\ diverges (t, c1) = false.
 Proof. vm_compute. repeat split. Qed.
+
+(* ... on documents: `proc main(){x:=1;}` carries a semantic diagnostic (the analysed tree is not the
+   parse tree); a blank typed after `;`, then, in a second notification, a line break appended *)
+Example C01_blank_edits_document_example :
+  let t := str "proc main(){x:=1;}" in
+  let c1 := snd (edit "proc main(){x:=1;}" 17 0 " ") in
+  let c2 := snd (edit "proc main(){x:=1; }" 19 0 (String (Ascii.ascii_of_nat 10) EmptyString)) in
+  clean_textb t = true /\ blank_histb t (concat [[c1]; [c2]]) = true /\ gap_histb t (concat [[c1]; [c2]]) = true /\
+  match new_doc t with
+  | Done d0 =>
+      strip_program (d_ast d0) <> d_ast d0 /\
+      match update_hist d0 [[c1]; [c2]] with
+      | Done d2 => new_doc (final_text t (concat [[c1]; [c2]])) = Done d2
+      | _ => False
+      end
+  | _ => False
+  end.
+Proof. vm_compute. repeat split. intros H. discriminate H. Qed.
 
 (* the hypotheses are necessary.  (1) a parse error in the old tree: `proc m(){a  :=1+;}`, a blank typed
    before `:=` - the change is empty, but the reused expression `1+` has lost its message *)
